@@ -157,7 +157,12 @@ func (c *Client) ListOffsets(ctx context.Context, req *ListOffsetsRequest) (*Lis
 				partition: int(p.Partition),
 			}
 
-			partition := partitionOffsets[key]
+			partition, requested := partitionOffsets[key]
+			if !requested {
+				// Not something that was asked for: there is no entry to
+				// report it in (and no offsets map to record it in).
+				continue
+			}
 
 			switch p.Timestamp {
 			case FirstOffset:
